@@ -211,7 +211,17 @@ Lv0 == [fd |-> 0, enums |-> << >>, members |-> << >>, idbase |-> NoId,
         pats |-> << >>, hasDef |-> FALSE, def |-> << >>]
 \* lay: where the typedefs are written ("top": module level, "local": inside the container of the leaf, "xmod": the
 \* innermost typedef in module a, the leaf in module b) - the meaning of a chain does not depend on it
-Chain(k, levels) == [k |-> k, mod |-> "a", lay |-> "top", idents |-> << >>, levels |-> levels]
+\* ctx: what the leaf statement carries besides its type and where it stands (see LeafCtxs) - the type of a leaf,
+\* the compile verdict on its type statement and on the defaults along its chain do not depend on it
+Chain(k, levels) == [k |-> k, mod |-> "a", lay |-> "top", ctx |-> "plain", idents |-> << >>, levels |-> levels]
+\* leaf contexts: mandatory / config / status / if-feature (feature enabled) on the leaf itself; the leaf inside a
+\* choice (explicit case, shorthand case, the default case), in a list entry (not a key), in a presence container,
+\* defined in a grouping and brought in by uses, made mandatory by a refine of that uses
+LeafCtxs == {"plain", "mandatory", "config-false", "state-mandatory", "deprecated", "obsolete", "if-feature", "mandatory-if-feature",
+             "case", "short-case", "case-mandatory", "default-case", "list", "list-mandatory", "presence", "presence-mandatory",
+             "uses", "uses-mandatory", "refine-mandatory"}
+MandatoryCtx(c) == c \in {"mandatory", "state-mandatory", "mandatory-if-feature", "case-mandatory", "list-mandatory", "presence-mandatory",
+                          "uses-mandatory", "refine-mandatory"}
 \* compiled type
 CT0(k) == [k |-> k, fd |-> 0, parts |-> (IF k \in NumKinds THEN <<WidthOf(k)>> ELSE << >>), rl |-> << >>, lparts |-> <<Part(Zero, MaxLen)>>, ll |-> << >>, pats |-> << >>,
            enums |-> << >>, acc |-> {}, unj |-> {}, members |-> << >>, sub |-> FALSE, hasDef |-> FALSE, def |-> << >>]
@@ -342,9 +352,16 @@ CompileFrom(ch, t, i, j) ==
   ELSE LET r == ApplyLevel(ch, t, ch.levels[i], i = 1) IN
        IF ~r.ok THEN [r EXCEPT !.j = r.j /\ j] ELSE CompileFrom(ch, r.t, i + 1, j /\ r.j)
 \* [ok, j, why, t]: compile verdict, whether it is judged, reason, compiled type
+\* A default statement on a mandatory leaf (RFC 6020 7.6.5 forbids the pair; the statement of C13 is about types and
+\* says nothing on it): the verdict on such a leaf is not judged.  Every other context leaves the verdict as it is:
+\* in particular a default that a mandatory leaf merely inherits from a typedef must still be a value of the leaf's type.
+CtxJudged(ch) == ch.ctx \in LeafCtxs /\ ~(MandatoryCtx(ch.ctx) /\ ch.levels[Len(ch.levels)].hasDef)
 CompileChain(ch) == IF ch.k \notin Kinds \/ ch.levels = << >> THEN Res(FALSE, FALSE, "not-judged", CT0("empty"))
-                    ELSE CompileFrom(ch, CT0(ch.k), 1, TRUE)
+                    ELSE LET r == CompileFrom(ch, CT0(ch.k), 1, TRUE) IN [r EXCEPT !.j = @ /\ CtxJudged(ch)]
 \* the default of a leaf: nearest of leaf, then each typedef outwards
+\* (RFC 6020 7.6.1: a mandatory leaf has no default value in the data tree although its type may have one; what
+\* Default() of such a leaf reports is not judged)
+DefaultJudged(ch) == ~MandatoryCtx(ch.ctx)
 DefaultOf(ch) == LET ds == {i \in 1..Len(ch.levels) : ch.levels[i].hasDef} IN
                  IF ds = {} THEN [has |-> FALSE, v |-> << >>] ELSE [has |-> TRUE, v |-> ch.levels[SetMax(ds)].def]
 =============================================================================
